@@ -9,6 +9,7 @@ import EvyV.Driver.EnvDrv
 import EvyV.Driver.SvgDrv
 import EvyV.Driver.TyDrv
 import EvyV.Driver.LexDrv
+import EvyV.Driver.LayoutDrv
 import EvyV.Gen.Shapes
 /-
 Line protocol driver (core-only, compiled as `lean_exe evyv`).
@@ -63,6 +64,10 @@ def handle (line : String) : String :=
   | "svg" :: rest => SvgDrv.handle rest
   | "ty" :: rest => TyDrv.handle rest
   | "lex" :: rest => LexDrv.handle rest
+  | ["fmtk"] => LayoutDrv.handleK ""
+  | ["fmtk", w] => LayoutDrv.handleK w
+  | ["fmtm"] => LayoutDrv.handleM ""
+  | ["fmtm", w] => LayoutDrv.handleM w
   | _ => "ERR unknown request"
 
 partial def loop (hin hout : IO.FS.Stream) : IO Unit := do
